@@ -9,6 +9,7 @@ package smx509
 //@   nullable namedCurveOID
 //@   ensures err == nil ==> key != nil && key.D != nil && 1 <= ghost(bigv, key.D) && ghost(bigv, key.D) < CURVEN(id(key.Curve))
 //@   ensures err != nil ==> key == nil
+//@   assert before call copy#1: sameobj(arg0, privateKey) && offof(arg0) + len(arg1) == offof(privateKey) + len(privateKey) && len(arg1) <= len(privateKey)
 //@   loop 1 invariant len(privateKey) >= 0
 //@   loop 1 decreases len(privKey.PrivateKey)
 //@   heapnonnil
